@@ -70,8 +70,9 @@ MANIFEST = {
     "level_note": "Trusted: as C01 (same model, same correspondence) for boxes; for aggregates the hand transcription of "
                   "fragment.go / moof.go / traf.go (OptimizeTfhdTrun via C05Model.optimize) / mdat.go / mediasegment.go / "
                   "initsegment.go / file.go into coq/c02/C02AggModel.v, tied to /repo by the history correspondence on every run. "
-                  "Modelling assumptions (stated as boolean hypotheses *_wf of the theorems and checked on every correspondence "
-                  "case): a box other than tfhd/tfdt/trun/mfhd/mdat/traf/moof is opaque and stateless (Size() taken before its "
+                  "Modelling assumptions (stated as boolean hypotheses *_wf of the theorems; the extracted model evaluates "
+                  "afrag_wf / aseg_wf / obs_wf / afile_wf / senc_ok themselves - C02_wf_evaluated - on every correspondence "
+                  "case and the evidence counts the cases they held on: theorem_hypotheses_evaluated): a box other than tfhd/tfdt/trun/mfhd/mdat/traf/moof is opaque and stateless (Size() taken before its "
                   "first Encode = bytes written = its size field); no mdat has lazily written data; a fragment is [boxes] moof "
                   "[boxes] mdat [boxes]; the pointer sharing between File.Children and the segments is a flag; equal write-order "
                   "numbers are ordered as Go's insertion sort does (up to 12 truns). The slice writer is modelled at box "
@@ -127,11 +128,14 @@ def run_agg_corr(ctx, exe2, amodel, seed, n):
     lines = cases.splitlines()
     res = common.run_model(amodel, cases)
     mism = [l for l in res if not l.startswith("OK ")]
-    kinds = {}
+    kinds, wfs = {}, {}
     for l in res:
         p = l.split(" ")
         if p[0] == "OK" and len(p) > 2:
             kinds[p[2]] = kinds.get(p[2], 0) + 1
+            if len(p) > 3 and p[3].startswith("wf="):
+                w = wfs.setdefault(p[2], {"hypothesis_true": 0, "hypothesis_false": 0})
+                w["hypothesis_true" if p[3] == "wf=1" else "hypothesis_false"] += 1
     distinct = len(set(l.split("\t", 2)[2] for l in lines if l.count("\t") >= 2))
     ctx.cov["evaluations"] += len(lines)
     ctx.cov["distinct_nontrivial"] += distinct
@@ -143,6 +147,14 @@ def run_agg_corr(ctx, exe2, amodel, seed, n):
                 "flags/defaults, mdat LargeSize, EncOptimize) vs afrag_step / aseg_step / ainit_step / afile_step; every opaque "
                 "box is checked against the model's assumption Size()-before-first-Encode = bytes written = size field",
         "cases": len(lines), "mismatches": len(mism), "distinct_cases": distinct, "agreeing_by_kind": kinds,
+        "theorem_hypotheses_evaluated": {
+            "what": "per agreeing case, the boolean hypothesis of the aggregate theorems evaluated by the extracted model "
+                    "(coq/c02/C02AggWfModel.v, proved equal to the theorems' own predicates: C02_wf_evaluated) on the structure "
+                    "as handed over: frag = afrag_wf (C02_fragment, C02_history_*), seg = aseg_wf (C02_segment), init = obs_wf "
+                    "(C02_init), file = afile_wf (C02_file, C02_file_progressive), senc = senc_ok (C02_senc); false = the "
+                    "theorems say nothing about that case (a lazily written mdat, an opaque box whose Encode fails, a senc "
+                    "with poked fields), only the correspondence does",
+            "by_kind": wfs},
         "harness_stats": stats[0][:1500] if stats else "",
         "inputs": "API-built fragments (single/multi track, full/lazy/parts data, emsg/prft/free/uuid extras in fragment, moof, traf; "
                   "1/3 wild: hand-set trun/tfhd flags, preset offsets, missing moof/mdat/tfhd, second tfhd, unnumbered trun), "
